@@ -81,6 +81,10 @@ func TestMakeReplays(t *testing.T) {
 	write("C14", "c14matrix", "text-in-int-list-batch", "'a' in list(1, 2) failed in batch mode only", &c14MatrixCase{E: lib.InList(lib.Str("a"), lib.Call("list", lib.Int(1), lib.Int(2)))})
 	write("C14", "c14matrix", "list-equals-list", "split(value, ',') = split(value, ',') was accepted and failed on the first row", &c14MatrixCase{E: lib.Bin("=", lib.Call("split", lib.Value(), lib.Str(",")), lib.Call("split", lib.Value(), lib.Str(","))), Where: true})
 
+	write("C09", "c09", "simplified-aggregate-field", "select (count(1) > 100) | (1 = 1) returned one row per pair", &c09Case{Stmt: &lib.Stmt{Kind: "select", Fields: []lib.SelField{{E: lib.Bin("|", lib.Bin(">", lib.Call("count", lib.Int(1)), lib.Int(100)), lib.Bin("=", lib.Int(1), lib.Int(1)))}}, Where: lib.Bin("!=", lib.Key(), lib.Str("zz"))}, Pairs: abc, Batch: 2})
+	collide := &lib.Stmt{Kind: "select", Fields: []lib.SelField{{E: lib.Key()}, {E: lib.Call("int", lib.Value()), Alias: "a-k"}, {E: lib.Bin("*", lib.Call("int", lib.Value()), lib.Int(10)), Alias: "a"}}, Where: lib.Bin("&", lib.Bin(">", lib.Ref("a-k", lib.TyInt), lib.Int(100)), lib.Bin(">", lib.Ref("a", lib.TyInt), lib.Int(100)))}
+	write("C05", "c05", "name-key-collision", "names a-k and a over keys 1 and k-1 shared one chunk cache entry", &c05Case{Stmt: collide, Pairs: []lib.Pair{{K: "1", V: "1"}, {K: "2", V: "2"}, {K: "k-1", V: "300"}, {K: "k-2", V: "400"}}, Batch: 2})
+
 	write("C03", "c03", "limit-skip-boundary", "limit 2,2 with batch size 2 returned rows 0-1", &c03Case{Stmt: &lib.Stmt{Kind: "select", Star: true, Where: lib.Bin("!=", lib.Key(), lib.Str("zz")), Lim: &lib.Limit{Start: 2, Count: 2, Two: true}}, Pairs: abc, Batch: 2, Batch2: 32})
 	write("C03", "c03", "in-split-row", "'1' in split(value, ',') failed row at a time only", &c03Case{Stmt: &lib.Stmt{Kind: "select", Fields: []lib.SelField{{E: lib.Key()}, {E: lib.Call("split", lib.Value(), lib.Str(","))}}, Where: lib.InList(lib.Str("1"), lib.Call("split", lib.Value(), lib.Str(",")))}, Pairs: abc, Batch: 2, Batch2: 32})
 	write("C03", "c03", "list-index-row", "list(1,2,3)[1] failed row at a time only", &c03Case{Stmt: &lib.Stmt{Kind: "select", Fields: []lib.SelField{{E: lib.Index(lib.Call("list", lib.Int(1), lib.Int(2), lib.Int(3)), 1)}}, Where: lib.Bin("^=", lib.Key(), lib.Str("a"))}, Pairs: abc, Batch: 2, Batch2: 32})
